@@ -140,6 +140,9 @@ func htmlSinkOperands(c *Ctx, f *flow, rule string) {
 			if s.Kind == "fmt.Fprintf" && len(s.Operands) > 0 {
 				// the format may place a value only with %s / %v / %d: %q, %x, %+q … re-encode it with Go rules, so the
 				// attribute value or text the tokenizer reads is no longer the string that was interpolated
+				if _, isConst := s.Operands[0].(*ssa.Const); !isConst {
+					c.viol(rule, fmt.Sprintf("%s|%s#%d|format-verbs", name, s.Kind, ord[s.Kind]), c.pos(s.Pos), fmt.Sprintf("%s calls fmt.Fprintf with a format string that is not a constant: interpolated text becomes part of the format, so a %% in a value is read as a verb (`id=\"progress-100%%\"` is written as `id=\"progress-100%%!\"(MISSING)…`, which a tokenizer reads as extra attributes)", name))
+				}
 				if k, ok := s.Operands[0].(*ssa.Const); ok && k.Value != nil && k.Value.Kind() == constant.String {
 					format := constant.StringVal(k.Value)
 					badVerb := ""
